@@ -61,7 +61,7 @@ type c09Entry struct {
 var c09Buckets = []datum.Range{{Min: 0, Max: 1}, {Min: 1, Max: 2}, {Min: 2, Max: 4}}
 
 func runC09(c c09Case) *vstat.Failure {
-	return vstat.Catch(func() *vstat.Failure { return runC09x(c) })
+	return vstat.CatchBounded(60*time.Second, func() *vstat.Failure { return runC09x(c) })
 }
 
 func runC09x(c c09Case) *vstat.Failure {
